@@ -142,7 +142,20 @@ def make_instance(kind: str, ity: str, data: dict) -> Any:
     cls = inc_class(kind, ity)
     if cls is Other:
         return Other()
-    return cls(**copy.deepcopy(data))
+    # fields whose value is the class default are left *unset* (the same state as far as the stores' semantics
+    # go): a merge that only looks at explicitly set fields (model_dump(exclude_unset=True)) is then visible
+    kwargs = {}
+    for k, v in copy.deepcopy(data).items():
+        f = getattr(cls, "model_fields", {}).get(k)
+        if f is not None:
+            try:
+                dv = f.get_default(call_default_factory=True)
+            except Exception:  # noqa: BLE001
+                dv = object()
+            if dv == v:
+                continue
+        kwargs[k] = v
+    return cls(**kwargs)
 
 
 # --------------------------------------------------------------------------
